@@ -7,7 +7,8 @@ import numpy as np
 
 from common import R
 
-LEAN_MODULES = ["PyomaVerif.Props.C10", "PyomaVerif.Mutants.C10", "PyomaVerif.Props.C09", "PyomaVerif.Props.WiringRun", "PyomaVerif.Props.C09All", "PyomaVerif.Props.C18MacLink", "PyomaVerif.Props.WiringStore", "PyomaVerif.Props.WiringClass", "PyomaVerif.Props.WiringCalls", "PyomaVerif.Props.C10Table"]
+LEAN_MODULES = ["PyomaVerif.Props.C10", "PyomaVerif.Mutants.C10", "PyomaVerif.Props.C09", "PyomaVerif.Props.WiringRun", "PyomaVerif.Props.C09All", "PyomaVerif.Props.C18MacLink", "PyomaVerif.Props.WiringStore", "PyomaVerif.Props.WiringClass", "PyomaVerif.Props.WiringCalls", "PyomaVerif.Props.C10Table",
+                "PyomaVerif.Props.C10Readings"]
 THEOREMS = [
     # C10 o C09: the labels of every class are SC_apply of the FILTERED tables it returns; stable <=> kept pole whose
     # first nearest kept pole of the previous order is within the tolerances; removed poles never stable / never reference
@@ -55,6 +56,8 @@ THEOREMS = [
     # table widths derived from the pole-table models (Model/Poles.lean): pLSCF Fn.c = ordmax, SSI Fn.c = ordmax + 1
     "PV.C10.C10_plscf_shift_table",
     "PV.C10.C10_ssi_table",
+    # depth round 2: the two readings of "order" for the pLSCF label table, cell by cell (Props/C10Readings.lean)
+    "PV.C10.C10_plscf_two_readings",
 ]
 RULE = (
     "correspondence: gen.SC_apply vs Stab.scApply on random pole tables (<= 12x12 quick, <= 40 orders thorough; values on a "
@@ -83,6 +86,10 @@ ASSUMPTIONS = [
     "numpy nanargmin/abs/comparison semantics on NaN are mirrored by NanTable (validated by the correspondence)",
     "x/0 with x>=0 (inf or NaN) is represented as NaN: both compare '<' false",
     "for pLSCF 'order' means the column index of the pole tables (column k holds polynomial order k+1), as in the library's own stabilisation chart and mpe",
+    "the verdict on pLSCF runs uses that column-index reading; under the other reading (polynomial order = column + 1) the cells of "
+    "order n = ordmin >= 2 that pass the soft criteria would be stable and are labelled 0 (ordmin is handed to SC_apply as a column "
+    "index): C10_plscf_two_readings says these are the only cells; the oracle counts them per run (plscf_two_readings_cells_differ, "
+    "information, not a violation)",
 ]
 
 GRID = 1024
@@ -461,6 +468,41 @@ def _judge(ctx, where, Fn, Xi, Phi, lab_real, visited, eF, eX, eP, inp, tie_guar
             return
 
 
+def _two_readings(ctx, Fn, Xi, Phi, Lab, ordmin, ordmax, sc, inp):
+    """depth round 2 (g19): a pLSCF class run judged explicitly under BOTH readings of "order".
+    A = column index (the library's own convention in its stabilisation chart and in mpe; ASSUMPTIONS; the reading the
+        verdict uses - _judge above): column o is visited iff ordmin <= o <= ordmax - 1;
+    B = polynomial order n = column + 1: visited iff ordmin <= o + 1 <= ordmax (o = 0, the first order, never stable).
+    Information only, NOT a violation: how many judged cells get different expected labels under A and B, and how many
+    stored labels differ from reading B.  Lean: PV.C10.C10_plscf_two_readings - the readings differ exactly on the cells of
+    order n = ordmin (column ordmin - 1) with ordmin >= 2 whose pole passes the soft criteria; checked here on every run."""
+    F, X, P = fr_mat(Fn), fr_mat(Xi), fr_phi(Phi)
+    tg = Fraction(1, 10**9)
+    eF, eX, eP = sc["err_fn"], sc["err_xi"], sc["err_phi"]
+    expA, _, _ = spec_labels(F, X, P, lambda o: ordmin <= o <= ordmax - 1, eF, eX, eP, tg)
+    expB, _, _ = spec_labels(F, X, P, lambda o: ordmin <= o + 1 <= ordmax, eF, eX, eP, tg)
+    lab = np.asarray(Lab)
+    differ, judged, labB = [], 0, 0
+    for i in range(len(F)):
+        for o in range(len(F[0]) if F else 0):
+            a, b = expA[i][o], expB[i][o]
+            if a is None or b is None:
+                continue
+            judged += 1
+            if a != b:
+                differ.append((i, o))
+            if int(lab[i, o]) != b:
+                labB += 1
+    ctx.count("plscf_two_readings_runs")
+    ctx.count("plscf_two_readings_runs_ordmin_ge_2", int(ordmin >= 2))
+    ctx.count("plscf_two_readings_cells_judged", judged)
+    ctx.count("plscf_two_readings_cells_differ", len(differ))
+    ctx.count("plscf_labels_differing_from_order_reading", labB)
+    located = all(o == ordmin - 1 and ordmin >= 2 and expB[i][o] == 1 and expA[i][o] == 0 for (i, o) in differ)
+    ctx.corr("pLSCF[two readings of order differ only at n = ordmin >= 2, A = 0, B = 1]", located, None, differ[:5], [ordmin, ordmax],
+             ("two-readings", ordmin >= 2, bool(differ)))
+
+
 def _real_runs(ctx):
     """result.Lab against result.{Fn,Xi,Phi}_poles after real runs of the classes"""
     from pyoma2.algorithms import SSIcov, SSIdat, pLSCF
@@ -514,6 +556,8 @@ def _real_runs(ctx):
         inp = {"kind": kind, "Fn": Fn.tolist(), "Xi": Xi.tolist(), "Phi_re": Phi.real.tolist(), "Phi_im": Phi.imag.tolist(),
                "ordmin": ordmin, "ordmax": ordmax, "sc": sc}
         _judge(ctx, kind, Fn, Xi, Phi, Lab, vis, sc["err_fn"], sc["err_xi"], sc["err_phi"], inp, tie_guard=Fraction(1, 10**9))
+        if kind == "pLSCF":
+            _two_readings(ctx, Fn, Xi, Phi, Lab, ordmin, ordmax, sc, inp)
 
 
 def oracle(ctx, scale):
